@@ -88,6 +88,16 @@ def run_one(sh, case, driver='generated'):
     else:
         for m in [m for m in sys.modules if m == 'tqdm' or m.startswith('tqdm.')]:
             del sys.modules[m]
+    bg_pre = None
+    if api == 'obj' and case.get('set_attrs'):
+        try:
+            with quiet():
+                bg_pre = BycycleGroup()
+                if case['set_attrs'] == 'after_a_fit':          # not part of the observed pool run
+                    bg_pre.fit(np.array(sigs, copy=True), fs, f_range, axis=0, n_jobs=1)
+        except Exception:
+            sh.note('default_fit_raised')
+            bg_pre = BycycleGroup()
     with poollog.Session(os.environ.get('BCVERIF_WORK', '/tmp'), delays) as ses:
         try:
             with quiet():
@@ -97,9 +107,25 @@ def run_one(sh, case, driver='generated'):
                                               axis=0, return_samples=rs, n_jobs=case['n_jobs'], progress=case['progress'])
                 else:
                     o = copy.deepcopy(kw) or {}
-                    bg = BycycleGroup(center_extrema=o.get('center_extrema', 'peak'), burst_method=o.get('burst_method', 'cycles'),
-                                      burst_kwargs=o.get('burst_kwargs'), thresholds=o.get('threshold_kwargs'),
-                                      find_extrema_kwargs=o.get('find_extrema_kwargs'), return_samples=rs)
+                    if case.get('set_attrs'):
+                        # the options are given through the object's public attributes after construction (first a fit with
+                        # the defaults, in half of the cases), not through the constructor
+                        bg = bg_pre
+                        bg.center_extrema = o.get('center_extrema', 'peak')
+                        bg.burst_method = o.get('burst_method', 'cycles')
+                        bg.burst_kwargs = o.get('burst_kwargs') or {}
+                        if o.get('threshold_kwargs') is not None:
+                            bg.thresholds = o['threshold_kwargs']
+                        elif bg.burst_method == 'amp':
+                            bg.thresholds = {'burst_fraction_threshold': 1, 'min_n_cycles': 3}      # the documented defaults of the method
+                        if o.get('find_extrema_kwargs') is not None:
+                            bg.find_extrema_kwargs = o['find_extrema_kwargs']
+                        bg.return_samples = rs
+                        sh.note('options_set_as_attributes:' + case['set_attrs'])
+                    else:
+                        bg = BycycleGroup(center_extrema=o.get('center_extrema', 'peak'), burst_method=o.get('burst_method', 'cycles'),
+                                          burst_kwargs=o.get('burst_kwargs'), thresholds=o.get('threshold_kwargs'),
+                                          find_extrema_kwargs=o.get('find_extrema_kwargs'), return_samples=rs)
                     bg.fit(np.array(sigs, copy=True), fs, f_range, axis=0, n_jobs=case['n_jobs'], progress=case['progress'])
                     res = bg.df_features
                     for i in range(n):
@@ -193,7 +219,7 @@ def make_case(rng, n, order=None, n_jobs=None, api='func'):
         n_jobs = int(rng.choice([1, 2, 3, n, n + 3, -1]))
     return dict(sigs=sigs, fs=fs, f_range=(lo, hi), kwargs=kw, return_samples=bool(rng.random() < 0.7),
                 n_jobs=n_jobs, progress=[None, None, 'tqdm', 'tqdm.notebook'][int(rng.integers(0, 4))],
-                delays=delays, api=api, fake_tqdm=bool(rng.random() < 0.5), layout=['C', 'C', 'F'][int(rng.integers(0, 3))])
+                delays=delays, api=api, set_attrs=(None if api != 'obj' else [None, 'before_first_fit', 'after_a_fit'][int(rng.integers(0, 3))]), fake_tqdm=bool(rng.random() < 0.5), layout=['C', 'C', 'F'][int(rng.integers(0, 3))])
 
 
 def run(sh):
@@ -210,6 +236,11 @@ def run(sh):
     for it in range(K):
         n = int(rng.integers(2, 9 if sh.tier == 'quick' else 13))
         guarded(sh, run_one, sh, make_case(rng, n, api='func' if rng.random() < 0.75 else 'obj'))
+    # every shard: the object with its options assigned as attributes, once before any fit and once after a default fit
+    for how in ('before_first_fit', 'after_a_fit'):
+        c = make_case(rng, int(rng.integers(2, 6)), api='obj')
+        c['set_attrs'] = how
+        guarded(sh, run_one, sh, c, 'attributes')
     if sh.tier == 'thorough':
         # slow first row, fast rest, worker reuse
         for it in range(3):
